@@ -740,7 +740,7 @@ class Screen(BaseScreen, RealTerminal):
     ) -> tuple[
         list[tuple[object, Literal["0", "U"] | None, bytes]],
         int,
-        tuple[object, Literal["0", "U"] | None, bytes],
+        tuple[object, Literal["0", "U"] | None, bytes] | None,
     ]:
         """On the last row we need to slide the bottom right character
         into place. Calculate the new line, attr and an insert sequence
@@ -756,6 +756,9 @@ class Screen(BaseScreen, RealTerminal):
         z_attr, z_cs, last_text = row[-1]
         last_cols = str_util.calc_width(last_text, 0, len(last_text))
         last_offs, _ = str_util.calc_text_pos(last_text, 0, len(last_text), last_cols - 1)
+        if last_offs == 0 and not new_row:
+            # one double-width character is the whole row: there is no Y to slide it with
+            return row, 0, None
         if last_offs == 0:
             z_text = last_text
             del new_row[-1]
